@@ -75,7 +75,7 @@ func GenLayout(t *rapid.T, o Opts) Layout {
 		l.RuleSlices = genSliceList(t, "rule_slices", l.NSSlices, true)
 		genRule(t, &l, o)
 		if !o.NoChild && rapid.IntRange(0, 3).Draw(t, "child") != 0 {
-			l.ChildKey = rapid.SampledFrom([]string{"k", "pk"}).Draw(t, "child_key")
+			l.ChildKey = []string{"pk", "pk", "k"}[Uniform(t, "child_key", 3)] // mostly a name different from the parent's key
 		}
 		if !o.NoSeq && rapid.IntRange(0, 2).Draw(t, "seq") == 0 {
 			l.SeqCol = "id"
@@ -107,9 +107,13 @@ func GenLayout(t *rapid.T, o Opts) Layout {
 func genGlobal(t *rapid.T, name string, ns int) GlobalSpec {
 	g := GlobalSpec{Table: name}
 	// the documented configurations list every namespace slice in order; others are accepted too
-	if rapid.IntRange(0, 3).Draw(t, name+"_all") != 0 {
+	switch k := Uniform(t, name+"_slicemode", 10); {
+	case k < 5 || ns == 1:
 		g.RuleSlices = seq(ns)
-	} else {
+	case k < 8:
+		// fewer copies than the namespace has slices: the first n slices, in namespace order
+		g.RuleSlices = seq(1 + Uniform(t, name+"_prefix", ns-1))
+	default:
 		g.RuleSlices = genSliceList(t, name+"_slices", ns, false)
 	}
 	total := 0
